@@ -17,7 +17,7 @@ import (
 type dryField struct {
 	val   constant.Value // value of the field when the checker is dry
 	owner string         // checker type name
-	ctor  *FuncBody
+	ctors map[*FuncBody]bool
 }
 
 var dryFieldsCache = map[*Prog]map[*types.Var]dryField{}
@@ -62,15 +62,31 @@ func (p *Prog) dryFields() map[*types.Var]dryField {
 			vt := constEval(p, info, rhs, map[*types.Var]constant.Value{boolParams[0]: constant.MakeBool(true)}, nil, 3)
 			vf := constEval(p, info, rhs, map[*types.Var]constant.Value{boolParams[0]: constant.MakeBool(false)}, nil, 3)
 			if vt != nil && vf != nil && !constant.Compare(vt, token.EQL, vf) {
-				out[field] = dryField{vt, named.Obj().Name(), fb}
+				d, ok := out[field]
+				if !ok {
+					d = dryField{vt, named.Obj().Name(), map[*FuncBody]bool{}}
+				}
+				d.ctors[fb] = true // a field of a struct shared by several checkers has several constructors
+				out[field] = d
 			}
 		}
 		inspectBody(fb.Body, func(n ast.Node) bool {
 			switch x := n.(type) {
 			case *ast.CompositeLit:
-				if tv, ok := info.Types[x]; !ok || namedOf(tv.Type) != named {
+				// the literal of the checker, or of a struct of the module nested in it (an embedded state struct)
+				tv, ok := info.Types[x]
+				if !ok {
 					return true
 				}
+				ln := namedOf(tv.Type)
+				if ln == nil || ln.Obj().Pkg() == nil || !strings.HasPrefix(ln.Obj().Pkg().Path(), Mod) {
+					return true
+				}
+				lst, ok := ln.Underlying().(*types.Struct)
+				if !ok {
+					return true
+				}
+				_ = st
 				for i, el := range x.Elts {
 					if kv, ok := el.(*ast.KeyValueExpr); ok {
 						if id, ok := kv.Key.(*ast.Ident); ok {
@@ -78,8 +94,8 @@ func (p *Prog) dryFields() map[*types.Var]dryField {
 								store(f, kv.Value)
 							}
 						}
-					} else if i < st.NumFields() {
-						store(st.Field(i), el)
+					} else if i < lst.NumFields() {
+						store(lst.Field(i), el)
 					}
 				}
 			case *ast.AssignStmt:
@@ -109,18 +125,32 @@ func dryLeafAtom(p *Prog, info *types.Info, e ast.Expr) string {
 		return ""
 	}
 	owner := ""
-	ast.Inspect(e, func(n ast.Node) bool {
-		if sel, ok := n.(*ast.SelectorExpr); ok {
-			if s := info.Selections[sel]; s != nil && s.Kind() == types.FieldVal {
-				if f, ok := s.Obj().(*types.Var); ok {
-					if d, ok := dd[f]; ok {
-						owner = d.owner
+	var find func(inf *types.Info, n ast.Node, depth int)
+	find = func(inf *types.Info, n ast.Node, depth int) {
+		ast.Inspect(n, func(n ast.Node) bool {
+			switch x := n.(type) {
+			case *ast.SelectorExpr:
+				if s := inf.Selections[x]; s != nil && s.Kind() == types.FieldVal {
+					if f, ok := s.Obj().(*types.Var); ok {
+						if d, ok := dd[f]; ok {
+							owner = d.owner
+						}
+					}
+				}
+			case *ast.CallExpr:
+				// a predicate of the module (checker.writable()): the dry field is read in its body
+				if depth > 0 {
+					if fn, ok := callee(inf, x).(*types.Func); ok {
+						if h := p.DeclOf(fn); h != nil && h.Decl != nil && strings.HasPrefix(h.Pkg.PkgPath, Mod) && len(h.Body.List) <= 4 {
+							find(h.Info(), h.Body, depth-1)
+						}
 					}
 				}
 			}
-		}
-		return owner == ""
-	})
+			return owner == ""
+		})
+	}
+	find(info, e, 2)
 	if owner == "" {
 		return ""
 	}
